@@ -7,7 +7,7 @@ text = json.load(open(os.path.join(ROOT, "manifest_text.json")))
 props = [json.loads(l)["id"] for l in open(os.path.join(ROOT, "properties.jsonl"))]
 m = {
  "version": 1,
- "setup_cmd": "cd /verif/engine && GOFLAGS=-mod=mod GOPROXY=off GOSUMDB=off GOTOOLCHAIN=local go build -o /verif/bin/symgo ./cmd/symgo",
+ "setup_cmd": "cd /verif/engine && GOFLAGS=-mod=mod GOPROXY=off GOSUMDB=off GOTOOLCHAIN=local go build -o /verif/bin/symgo ./cmd/symgo && go build -o /verif/bin/vinstr ./cmd/vinstr",
  "hooks": {
   "guard": "verif",
   "enable": "no hook is committed to /repo: harness, stub and accessor files carry //go:build verif and are injected at load/build time (go/packages Overlay for the engine, go test -tags verif -overlay for native replay)",
